@@ -22,6 +22,11 @@ try:
                         and st.targets[0].id in ("single", "opencl", "structure_factor", "have_Fq"):
                     flags[st.targets[0].id] = _ast.unparse(st.value)
             meta[f[:-3]] = flags
+    # the conversion table of the reference tree, constant-folded (R-C20-rows)
+    code = "import json,sys; sys.path.insert(0, %r); from sa import tables; t,_ = tables.conversion_table(); json.dump({'.'.join(map(str, v)): {m: [e[0], e[1]] for m, e in rows.items()} for v, rows in t.items()}, open(%r, 'w'), sort_keys=True, indent=0)" % (
+        os.path.join(os.path.dirname(os.path.abspath(__file__)), ".."),
+        os.path.join(os.path.dirname(os.path.abspath(__file__)), "..", "sa", "reftable.json"))
+    subprocess.check_call([sys.executable, "-c", code], env=dict(os.environ, SASMODELS_REPO=tmp))
     # C side: shapes of the generated units of the reference tree
     env = dict(os.environ, SASMODELS_REPO=tmp, SA_SCRATCH=tmp)
     code = "import json,sys; sys.path.insert(0, %r); from sa import calpha; json.dump(calpha.build_reference(), open(%r, 'w'), sort_keys=True, separators=(',', ':'))" % (
